@@ -157,8 +157,12 @@ def check_property(prop, tier, only=None, jobs=None, verbose=True):
                         errors.append("%s: counterexample %s did not reproduce natively (%s)" % (c.name, r.get("args"), rr.get("reason") or rr.get("message")))
             else:
                 for cex in r.get("cex", []):
-                    path = write_replay(prop, modname, c.name, tier, cex, ex, {"solver": r.get("message")})
-                    violations.append((c.name, path, r.get("message"), cex.get("why") if isinstance(cex, dict) else None))
+                    rr = run_worker("replay", modname, c.name, tier, ex, cex, timeout=600)
+                    if rr.get("reproduced"):
+                        path = write_replay(prop, modname, c.name, tier, cex, ex, {"solver": r.get("message"), "native": rr})
+                        violations.append((c.name, path, r.get("message"), rr.get("reason")))
+                    else:
+                        errors.append("%s: solver model %s did not reproduce natively (%s)" % (c.name, cex.get("model") if isinstance(cex, dict) else cex, rr.get("reason") or rr.get("message")))
                 if not r.get("cex"):
                     errors.append("%s: refuted without counterexample: %s" % (c.name, r.get("message")))
         else:
